@@ -130,6 +130,44 @@ class GenObj:
         self.started = False
 
 
+# ---------------------------------------------------------------------------- canonical representations
+# A specification talks about an object's abstract view (a few named fields).  The real class may keep further
+# private fields (caches ...).  For registered classes the concrete twin of a view is obtained by running the
+# class's REAL constructor on the view, so that harmless representation changes do not disturb the proofs while
+# a method that leaves such a field inconsistent with the view is still caught.
+CANON = []      # (base class, tuple of view fields, rebuild(interp, cls, view) -> object)
+
+
+def register_canon(base, fields, rebuild):
+    for i, (b, _, _) in enumerate(CANON):
+        if b is base:
+            CANON[i] = (base, tuple(fields), rebuild)
+            return
+    CANON.append((base, tuple(fields), rebuild))
+
+
+def canon_entry(cls):
+    best = None
+    for base, fields, rebuild in CANON:
+        if isinstance(cls, type) and issubclass(cls, base):
+            if best is None or issubclass(base, best[0]):
+                best = (base, fields, rebuild)
+    return best
+
+
+def canonical(obj):
+    """concrete twin of obj's abstract view (obj itself if its class is not registered or the view is incomplete)"""
+    cls = obj.cls if isinstance(obj, SObj) else type(obj)
+    ent = canon_entry(cls)
+    if ent is None:
+        return obj
+    fields = obj.fields if isinstance(obj, SObj) else vars(obj)
+    if any(f not in fields for f in ent[1]):
+        return obj
+    view = {f: fields[f] for f in ent[1]}
+    return ent[2](_INTERP, cls, view)
+
+
 class Deferred:
     """uninterpreted application f(args): stands for the result of a contracted function on these arguments
     without evaluating it; two are equal when the functions are the same and the arguments are equal."""
@@ -185,6 +223,14 @@ def values_equal(a, b):
         if a.cls is not b.cls:
             return False
         if set(a.fields) != set(b.fields):
+            # one side may be an abstract view: compare through the canonical representation
+            ent = canon_entry(a.cls)
+            if ent is not None:
+                ca = canonical(a) if set(a.fields) == set(ent[1]) else a
+                cb = canonical(b) if set(b.fields) == set(ent[1]) else b
+                if set(ca.fields) != set(cb.fields):
+                    return False
+                return And([values_equal(ca.fields[k], cb.fields[k]) for k in sorted(ca.fields)])
             return False
         return And([values_equal(a.fields[k], b.fields[k]) for k in sorted(a.fields)])
     if isinstance(a, sym.SFloat) or isinstance(b, sym.SFloat):
